@@ -1002,6 +1002,7 @@ pub fn c09(r: &mut Rng, sz: &Sizes, out: &mut Vec<String>) {
         out.push(format!("p_c09\t{k}\t{}\t!ok *", hexes.join("\t")));
         if h.len() == 2 {
             out.push(format!("p_cycle\t{}", hexes.join("\t")));
+            out.push(format!("p_reorder\t{}", hexes.join("\t")));
         }
     }
     // groups of documents fed over and over in turn (a, b, a, b, ...): every ordered pair and a sample of
@@ -1012,8 +1013,11 @@ pub fn c09(r: &mut Rng, sz: &Sizes, out: &mut Vec<String>) {
         for b in &fixed {
             if a != b {
                 out.push(format!("p_cycle\t{}\t{}", hx(a), hx(b)));
+                out.push(format!("p_reorder\t{}\t{}", hx(a), hx(b)));
                 out.push(format!("p_cycle\t{}\t{}", hx(&format!("{{\"k\":{a}}}")), hx(&format!("{{\"k\":{b}}}"))));
+                out.push(format!("p_reorder\t{}\t{}", hx(&format!("{{\"k\":{a}}}")), hx(&format!("{{\"k\":{b}}}"))));
                 out.push(format!("p_cycle\t{}\t{}", hx(&format!("[{a},1]")), hx(&format!("[{b},1]"))));
+                out.push(format!("p_reorder\t{}\t{}", hx(&format!("[{a},1]")), hx(&format!("[{b},1]"))));
             }
         }
     }
@@ -1021,9 +1025,11 @@ pub fn c09(r: &mut Rng, sz: &Sizes, out: &mut Vec<String>) {
         let n = 2 + r.below(2);
         let g: Vec<String> = (0..n).map(|_| hx(r.pick(&fixed))).collect();
         out.push(format!("p_cycle\t{}", g.join("\t")));
+        out.push(format!("p_reorder\t{}", g.join("\t")));
         let h = rand_history(r, DKEYS);
         let hexes: Vec<String> = h.iter().map(|d| hex_doc(d, 0)).collect();
         out.push(format!("p_cycle\t{}", hexes.join("\t")));
+        out.push(format!("p_reorder\t{}", hexes.join("\t")));
     }
 }
 
